@@ -35,6 +35,7 @@ func (s *Semaphore) Acquire(cancel <-chan struct{}, timeout time.Duration) bool 
 	// await token, cancel or deadline
 	select {
 	case <-s.tokens:
+		vhook("sem.acquired")
 		return true
 	case <-cancel:
 		return false
@@ -46,6 +47,7 @@ func (s *Semaphore) Acquire(cancel <-chan struct{}, timeout time.Duration) bool 
 // Release will release a token to the semaphore. It is critical that this is
 // only done once per token.
 func (s *Semaphore) Release() {
+	vhook("sem.release")
 	select {
 	case s.tokens <- struct{}{}:
 	default:
